@@ -52,7 +52,11 @@ Qed.
    those of one of the two orders; the clause judges the observation itself *)
 Definition race_obs_eqb (a b : list tstate * tstate) : bool :=
   Common.Eqb.eqb_list tstate_beq (fst a) (fst b) && tstate_beq (snd a) (snd b).
-Definition c13_race_row (cur tgt : tstate) (ann : list tstate) (fin : tstate) : list bool :=
+(* [cbs]: every state the application's task callback was called with, in order
+   (whichever thread called it): it must be a chain from the task's state --
+   in particular nothing is announced after a final state *)
+Definition c13_race_row (cur tgt : tstate) (ann : list tstate) (fin : tstate) (cbs : list tstate) : list bool :=
   [ race_obs_eqb (order_ud cur tgt) (ann, fin) || race_obs_eqb (order_du cur tgt) (ann, fin);
     true; true; true;
-    one_final (ann, fin) ].
+    one_final (ann, fin);
+    chainb tstate_beq T_DONE T_FAILED T_CANCELED tvalue cur cbs ].
